@@ -1,9 +1,11 @@
 /-
   Kevo.Proofs.ConcStorage — proofs about the interleaving model of storage.Manager (Kevo.Model.ConcStorage):
   A. the ghost trace is a well-formed linearization witness ⇒ every reachable history is linearizable (C06);
-  B. what the log files contain (D19): a successful write is logged; without a late `Rotating` observation a
-     failed write leaves no record and a successful one exactly one; two witnesses for the late case;
-  C. the storage lock: a writer excludes everybody else.
+  B. what the log files contain: a successful write is logged; as long as `late = 0` a failed write leaves no record
+     and a successful one exactly one (the `_partial` lemmas);
+  C. the storage lock: a writer excludes everybody else;
+  D. a thread inside Append never finds its log closed (Close needs the mutex of the WAL object), so `late = 0` in
+     every reachable state (D19 repaired): `error_no_effect` and `log_once` hold unconditionally.
 -/
 import Kevo.Model.ConcStorage
 import Kevo.Proofs.Lin
@@ -48,9 +50,7 @@ inductive TStep (cfg : Cfg) (s : St S) (t : Nat) (r : Run) : St S → Prop
   | buffer (a w : Nat) : r.ph = .wChecked a w →
       TStep cfg s t r { upd s t r (if cfg.syncImmediate then .wBuffered a w else .wAppended) with
                         wals := addRec s.wals w r.id }
-  | syncActive (a w : Nat) : r.ph = .wBuffered a w → walStatus s w = .active → TStep cfg s t r (upd s t r .wAppended)
-  | syncRot (a w : Nat) : r.ph = .wBuffered a w → walStatus s w = .rotating →
-      TStep cfg s t r { upd s t r (.wFailed a) with late := s.late + 1 }
+  | syncOk (a w : Nat) : r.ph = .wBuffered a w → walStatus s w ≠ .closed → TStep cfg s t r (upd s t r .wAppended)
   | syncClosed (a w : Nat) : r.ph = .wBuffered a w → walStatus s w = .closed →
       TStep cfg s t r { upd s t r (.done .err) with tr := .lin r.id r.op .err :: s.tr, late := s.late + 1 }
   | apply (k : Bytes) (v : Option Bytes) : r.ph = .wAppended → opKV r.op = some (k, v) →
@@ -113,9 +113,8 @@ theorem stepThread_TStep {cfg : Cfg} {s s' : St S} {t : Nat} (h : stepThread cfg
     | wBuffered a w =>
       simp only at h
       split at h
-      · rename_i hs; cases h; exact TStep.syncActive a w rfl hs
-      · rename_i hs; cases h; exact TStep.syncRot a w rfl hs
       · rename_i hs; cases h; exact TStep.syncClosed a w rfl hs
+      · rename_i hs; cases h; exact TStep.syncOk a w rfl hs
     | wAppended =>
       simp only at h
       split at h
@@ -461,8 +460,7 @@ theorem inv_thread {cfg : Cfg} {s s' : St S} {t : Nat} {r : Run} (inv : Inv S s)
   | buffer a w h1 =>
     refine inv_silent inv hr _ ?_ (by simp [wph, h1]) rfl rfl rfl rfl
     rw [h1]; cases cfg.syncImmediate <;> rfl
-  | syncActive a w h1 h2 => exact inv_silent inv hr _ (by rw [h1]; rfl) (by simp [wph, h1]) rfl rfl rfl rfl
-  | syncRot a w h1 h2 => exact inv_silent inv hr _ (by rw [h1]; rfl) (by simp [wph, h1]) rfl rfl rfl rfl
+  | syncOk a w h1 h2 => exact inv_silent inv hr _ (by rw [h1]; rfl) (by simp [wph, h1]) rfl rfl rfl rfl
   | syncClosed a w h1 h2 =>
     refine inv_lp inv hr .err (by rw [h1]; rfl) rfl rfl inv.sinv ?_ rfl
     exact mapStep_err _ _ (inv.typ t r hr (by rw [h1]; rfl))
@@ -841,12 +839,9 @@ theorem logInv_thread {cfg : Cfg} {s s' : St S} {t : Nat} {r : Run} (inv : Inv S
     exact logInv_move li hr _ rfl rfl rfl rfl (Or.inl rfl) (by simp [walIdx]) (Or.inl (by rw [h1]; rfl))
       (by simp [isBuf]) (Or.inr ⟨_, rfl, rfl⟩)
   | buffer a w h1 => exact logInv_buffer inv li hr a w h1
-  | syncActive a w h1 h2 =>
+  | syncOk a w h1 h2 =>
     exact logInv_move li hr _ rfl rfl rfl rfl (Or.inl rfl) (by simp [walIdx]) (Or.inl (by rw [h1]; rfl))
       (by simp [isBuf]) (Or.inl rfl)
-  | syncRot a w h1 h2 =>
-    exact logInv_move li hr _ rfl rfl rfl rfl (Or.inr ⟨rfl, by rw [h1]; rfl⟩) (by simp [walIdx])
-      (Or.inr ⟨Nat.succ_ne_zero _, by rw [h1]; exact Nat.zero_le _⟩) (by simp [isBuf]) (Or.inl rfl)
   | syncClosed a w h1 h2 =>
     exact logInv_move li hr _ rfl rfl rfl rfl (Or.inr ⟨rfl, by rw [h1]; rfl⟩) (by simp [walIdx])
       (Or.inr ⟨Nat.succ_ne_zero _, by rw [h1]; exact Nat.zero_le _⟩) (by simp [isBuf]) (Or.inr ⟨_, rfl, rfl⟩)
@@ -943,56 +938,6 @@ theorem log_once_partial (S : Store) (cfg : Cfg) (sched : List Act) (s : St S)
   obtain ⟨inv, li⟩ := logInv_reach S cfg sched s h
   obtain ⟨op, hlin⟩ := ret_lin inv i .ok hr
   exact (li.lins i op .ok hlin).2 hl
-
-/-- without sync-immediate (and below the batch threshold) there is no second status check, hence no late append -/
-theorem no_late_without_sync (S : Store) (cfg : Cfg) (sched : List Act) (s : St S)
-    (h : reach S cfg sched = some s) (hc : cfg.syncImmediate = false) : s.late = 0 :=
-  (logInv_reach S cfg sched s h).2.nolate hc
-
-/-! ### D19: with sync-immediate the two `_partial` theorems do not extend to late appends -/
-
-def error_no_effect_statement (S : Store) (cfg : Cfg) : Prop :=
-  ∀ sched s, reach S cfg sched = some s → ∀ i, Ev.ret i COut.err ∈ hist s →
-    (∃ op, (i, op, COut.err) ∈ linlog s.tr) ∧ i ∉ allRecs s
-
-def cfgImm : Cfg := { syncImmediate := true }
-def wput : COp := .put [1] [7]
-
-/-- the record is buffered, then the flush goroutine marks the WAL Rotating, the sync check fails, all retries see
-    Rotating: the put returns an error, its record stays in log file 0 -/
-def schedErr : List Act :=
-  [.start 0 wput, .step 0, .step 0, .step 0, .step 0,   -- lock, getWAL, status check (Active), buffer the record
-   .rot,                                                 -- SetRotating
-   .step 0,                                              -- syncLocked sees Rotating: attempt 0 failed
-   .step 0, .step 0, .step 0,                            -- attempt 1: Rotating
-   .step 0, .step 0, .step 0,                            -- attempt 2: Rotating
-   .step 0,                                              -- give up: error
-   .step 0, .step 0]                                     -- unlock, return
-
-/-- as above, but the rotation completes the pointer swap before the retry: the retry succeeds on the new WAL and
-    the operation has two records (one in each file) -/
-def schedDup : List Act :=
-  [.start 0 wput, .step 0, .step 0, .step 0, .step 0, .rot, .step 0, .rot,
-   .step 0, .step 0, .step 0, .step 0, .step 0, .step 0, .step 0, .step 0]
-
-theorem error_no_effect_witness : ¬ error_no_effect_statement mapStore { syncImmediate := true } := by
-  intro h
-  have hs : (reach mapStore cfgImm schedErr).isSome = true := rfl
-  have hreach : reach mapStore cfgImm schedErr = some ((reach mapStore cfgImm schedErr).get hs) :=
-    (Option.some_get hs).symm
-  have hh : hist ((reach mapStore cfgImm schedErr).get hs) = [.call 0 wput, .ret 0 .err] := rfl
-  have hrecs : allRecs ((reach mapStore cfgImm schedErr).get hs) = [0] := rfl
-  have h2 := (h schedErr _ hreach 0 (by rw [hh]; exact List.mem_cons_of_mem _ List.mem_cons_self)).2
-  rw [hrecs] at h2
-  exact h2 List.mem_cons_self
-
-theorem duplicate_record_witness : ∃ sched s, reach mapStore { syncImmediate := true } sched = some s ∧
-    Ev.ret 0 COut.ok ∈ hist s ∧ (allRecs s).count 0 = 2 := by
-  have hs : (reach mapStore cfgImm schedDup).isSome = true := rfl
-  refine ⟨schedDup, (reach mapStore cfgImm schedDup).get hs, (Option.some_get hs).symm, ?_, ?_⟩
-  · have hh : hist ((reach mapStore cfgImm schedDup).get hs) = [.call 0 wput, .ret 0 .ok] := rfl
-    rw [hh]; exact List.mem_cons_of_mem _ List.mem_cons_self
-  · rfl
 
 /-! ## PART C — the storage lock -/
 
@@ -1172,8 +1117,7 @@ theorem lockInv_thread {cfg : Cfg} {s s' : St S} {t : Nat} {r : Run} (inv : Inv 
     refine lockInv_move lk hr _ rfl rfl rfl ?_ ?_
     · cases cfg.syncImmediate <;> simp [holdsW, h1]
     · cases cfg.syncImmediate <;> simp [holdsR, h1]
-  | syncActive a w h1 h2 => exact lockInv_move lk hr _ rfl rfl rfl (by simp [holdsW, h1]) (by simp [holdsR, h1])
-  | syncRot a w h1 h2 => exact lockInv_move lk hr _ rfl rfl rfl (by simp [holdsW, h1]) (by simp [holdsR, h1])
+  | syncOk a w h1 h2 => exact lockInv_move lk hr _ rfl rfl rfl (by simp [holdsW, h1]) (by simp [holdsR, h1])
   | syncClosed a w h1 h2 =>
     have hg := inv.typ t r hr (by rw [h1]; rfl)
     exact lockInv_move lk hr _ rfl rfl rfl (by rw [holdsW_lp _ hg]; simp [holdsW, h1])
@@ -1321,5 +1265,248 @@ theorem mutual_exclusion (S : Store) (cfg : Cfg) (sched : List Act) (s : St S) (
   · have := lk.r1 u r' hu hx
     rw [(lk.w2 t hwt).1] at this
     cases this
+
+/-! ## PART D — a thread inside Append never finds its log closed, hence no append is late (D19 repaired) -/
+
+/-- the WAL object whose mutex the thread holds (inside Append) -/
+def appIdx : Phase → Option Nat
+  | .wChecked _ w | .wBuffered _ w => some w
+  | _ => none
+
+theorem insideAppend_of_appIdx (r : Run) (w : Nat) (h : appIdx r.ph = some w) : insideAppend (some r) w = true := by
+  obtain ⟨id, op, ph⟩ := r
+  cases ph <;> simp [appIdx] at h <;> simp [insideAppend, h]
+
+theorem holdsW_of_appIdx (r : Run) (w : Nat) (h : appIdx r.ph = some w) : holdsW r = true := by
+  obtain ⟨id, op, ph⟩ := r
+  cases ph <;> simp [appIdx] at h <;> simp [holdsW]
+
+theorem getD_set_wal : ∀ (l : List WalObj) (o w : Nat) (x : WalObj),
+    (l.set o x).getD w {} = if w = o ∧ o < l.length then x else l.getD w {}
+  | [], o, w, x => by simp
+  | a :: l, 0, 0, x => by simp
+  | a :: l, 0, w + 1, x => by simp
+  | a :: l, o + 1, 0, x => by simp
+  | a :: l, o + 1, w + 1, x => by
+    simp only [List.set_cons_succ, List.getD_cons_succ, getD_set_wal l o w x, List.length_cons,
+      Nat.add_right_cancel_iff, Nat.add_lt_add_iff_right]
+
+theorem getD_append_empty : ∀ (wals : List WalObj) (w : Nat), (wals ++ [({} : WalObj)]).getD w {} = wals.getD w {}
+  | [], 0 => rfl
+  | [], w + 1 => rfl
+  | a :: l, 0 => rfl
+  | a :: l, w + 1 => by
+    simp only [List.cons_append, List.getD_cons_succ, getD_append_empty l w]
+
+theorem status_addRec (wals : List WalObj) (w i w' : Nat) :
+    ((addRec wals w i).getD w' {}).status = (wals.getD w' {}).status := by
+  unfold addRec
+  rw [getD_set_wal]
+  split
+  · rename_i h; rw [h.1]
+  · rfl
+
+theorem status_setStatus (wals : List WalObj) (o : Nat) (st : WStatus) (w : Nat) :
+    ((setStatus wals o st).getD w {}).status = st ∨
+    ((setStatus wals o st).getD w {}).status = (wals.getD w {}).status := by
+  unfold setStatus
+  rw [getD_set_wal]
+  split
+  · exact Or.inl rfl
+  · exact Or.inr rfl
+
+theorem status_setStatus_ne (wals : List WalObj) (o : Nat) (st : WStatus) (w : Nat) (h : w ≠ o) :
+    ((setStatus wals o st).getD w {}).status = (wals.getD w {}).status := by
+  unfold setStatus
+  rw [getD_set_wal]
+  split
+  · rename_i h'; exact absurd h'.1 h
+  · rfl
+
+structure AppInv (s : St S) : Prop where
+  /-- the log of an append in progress is not closed: `Close` needs the mutex of the WAL object -/
+  opn : ∀ t r w, s.th t = some r → appIdx r.ph = some w → walStatus s w ≠ .closed
+  late0 : s.late = 0
+
+theorem appInv_init (S : Store) : AppInv (init S) := by
+  refine ⟨?_, rfl⟩
+  intro t r w h; cases h
+
+/-- the run of thread `t` is replaced (or removed); no status word changes -/
+theorem appInv_set {s s' : St S} {t : Nat} (ai : AppInv s) (onew : Option Run)
+    (hth : s'.th = fun u => if u = t then onew else s.th u)
+    (hst : ∀ w, walStatus s' w = walStatus s w) (hlate : s'.late = s.late)
+    (hnew : ∀ r' w, onew = some r' → appIdx r'.ph = some w → walStatus s w ≠ .closed) : AppInv s' := by
+  refine ⟨?_, by rw [hlate]; exact ai.late0⟩
+  intro u r' w hu hw
+  rw [hth] at hu; rw [hst]
+  by_cases hut : u = t
+  · simp only [hut, if_true] at hu
+    exact hnew r' w hu hw
+  · simp only [hut, if_false] at hu
+    exact ai.opn u r' w hu hw
+
+theorem appInv_thread {cfg : Cfg} {s s' : St S} {t : Nat} {r : Run} (ai : AppInv s)
+    (hr : s.th t = some r) (h : TStep cfg s t r s') : AppInv s' := by
+  cases h with
+  | rlock k h1 h2 h3 =>
+    exact appInv_set ai _ rfl (fun _ => rfl) rfl (by intro r' w e hw; cases e; simp [appIdx] at hw)
+  | wlock h1 h2 h3 h4 =>
+    exact appInv_set ai _ rfl (fun _ => rfl) rfl (by intro r' w e hw; cases e; simp [appIdx] at hw)
+  | getwal a h1 =>
+    exact appInv_set ai _ rfl (fun _ => rfl) rfl (by intro r' w e hw; cases e; simp [appIdx] at hw)
+  | chkActive a w h1 h2 =>
+    refine appInv_set ai _ rfl (fun _ => rfl) rfl ?_
+    intro r' w' e hw
+    cases e
+    simp only [appIdx, Option.some.injEq] at hw
+    rw [← hw, h2]; simp
+  | chkRot a w h1 h2 =>
+    exact appInv_set ai _ rfl (fun _ => rfl) rfl (by intro r' w e hw; cases e; simp [appIdx] at hw)
+  | chkClosed a w h1 h2 =>
+    exact appInv_set ai _ rfl (fun _ => rfl) rfl (by intro r' w e hw; cases e; simp [appIdx] at hw)
+  | buffer a w h1 =>
+    refine appInv_set ai _ rfl (fun w' => ?_) rfl ?_
+    · show ((addRec s.wals w r.id).getD w' {}).status = (s.wals.getD w' {}).status
+      exact status_addRec _ _ _ _
+    · intro r' w' e hw
+      cases e
+      have hw' : w' = w := by
+        cases hs : cfg.syncImmediate <;> simp [hs, appIdx] at hw
+        exact hw.symm
+      rw [hw']
+      exact ai.opn t r w hr (by rw [h1]; rfl)
+  | syncOk a w h1 h2 =>
+    exact appInv_set ai _ rfl (fun _ => rfl) rfl (by intro r' w e hw; cases e; simp [appIdx] at hw)
+  | syncClosed a w h1 h2 => exact absurd h2 (ai.opn t r w hr (by rw [h1]; rfl))
+  | apply k v h1 h2 =>
+    exact appInv_set ai _ rfl (fun _ => rfl) rfl (by intro r' w e hw; cases e; simp [appIdx] at hw)
+  | retry a h1 h2 =>
+    exact appInv_set ai _ rfl (fun _ => rfl) rfl (by intro r' w e hw; cases e; simp [appIdx] at hw)
+  | giveup a h1 h2 =>
+    exact appInv_set ai _ rfl (fun _ => rfl) rfl (by intro r' w e hw; cases e; simp [appIdx] at hw)
+  | lookup k h1 h2 =>
+    exact appInv_set ai _ rfl (fun _ => rfl) rfl (by intro r' w e hw; cases e; simp [appIdx] at hw)
+  | runlock out k h1 h2 =>
+    exact appInv_set ai _ rfl (fun _ => rfl) rfl (by intro r' w e hw; cases e; simp [appIdx] at hw)
+  | wunlock out h1 h2 =>
+    exact appInv_set ai _ rfl (fun _ => rfl) rfl (by intro r' w e hw; cases e; simp [appIdx] at hw)
+  | ret out h1 =>
+    exact appInv_set ai none rfl (fun _ => rfl) rfl (by intro r' w e; cases e)
+
+theorem appInv_rot {s s' : St S} (lk : LockInv s) (ai : AppInv s) (h : stepRot s = some s') : AppInv s' := by
+  unfold stepRot at h
+  split at h
+  · -- SetRotating: the only status written is `rotating`
+    cases h
+    refine ⟨?_, ai.late0⟩
+    intro t r w hr hw
+    have hold := ai.opn t r w hr hw
+    show ((setStatus s.wals s.cur .rotating).getD w {}).status ≠ .closed
+    rcases status_setStatus s.wals s.cur .rotating w with h | h
+    · rw [h]; simp
+    · rw [h]; exact hold
+  · split at h
+    · -- pointer swap: a fresh object is appended
+      cases h
+      refine ⟨?_, ai.late0⟩
+      intro t r w hr hw
+      show ((s.wals ++ [({} : WalObj)]).getD w {}).status ≠ .closed
+      rw [getD_append_empty]
+      exact ai.opn t r w hr hw
+    · cases h
+  · split at h
+    · -- Close(old): needs the mutex of `old`, which a thread inside Append on `old` would hold
+      rename_i old _ hfree
+      cases h
+      refine ⟨?_, ai.late0⟩
+      intro t r w hr hw
+      have hwr := lk.w1 t r hr (holdsW_of_appIdx r w hw)
+      have hne : w ≠ old := by
+        intro e
+        rw [e] at hw
+        have hin := insideAppend_of_appIdx r old hw
+        have hr' : s.th t = some r := hr
+        simp [walMuFree, hwr, hr', hin] at hfree
+      show ((setStatus s.wals old .closed).getD w {}).status ≠ .closed
+      rw [status_setStatus_ne _ _ _ _ hne]
+      exact ai.opn t r w hr hw
+    · cases h
+
+theorem appInv_step {cfg : Cfg} {s s' : St S} (a : Act) (lk : LockInv s) (ai : AppInv s)
+    (h : stepAct cfg s a = some s') : AppInv s' := by
+  cases a with
+  | start t op =>
+    simp only [stepAct] at h
+    split at h
+    · cases h
+    · cases h
+      exact appInv_set ai _ rfl (fun _ => rfl) rfl (by intro r' w e hw; cases e; simp [appIdx] at hw)
+  | step t =>
+    obtain ⟨r, hr, hs⟩ := stepThread_TStep (show stepThread cfg s t = some s' from h)
+    exact appInv_thread ai hr hs
+  | rot => exact appInv_rot lk ai (show stepRot s = some s' from h)
+  | bg n =>
+    simp only [stepAct] at h
+    split at h
+    · cases h
+    · cases h
+      exact ⟨ai.opn, ai.late0⟩
+
+theorem appInv_reach (S : Store) (cfg : Cfg) (sched : List Act) (s : St S) (h : reach S cfg sched = some s) :
+    AppInv s :=
+  (reachFrom_induct (fun s => Inv S s ∧ LockInv s ∧ AppInv s)
+    (fun _ _ a hp hs => ⟨inv_step a hp.1 hs, lockInv_step a hp.1 hp.2.1 hs, appInv_step a hp.2.1 hp.2.2 hs⟩)
+    sched (init S) s ⟨inv_init S, lockInv_init S, appInv_init S⟩ h).2.2
+
+/-- no append ever observes a closed log after buffering its record (the D19 window is closed) -/
+theorem no_late (S : Store) (cfg : Cfg) (sched : List Act) (s : St S) (h : reach S cfg sched = some s) :
+    s.late = 0 :=
+  (appInv_reach S cfg sched s h).late0
+
+/-- a write that returned an error left no record in any log file -/
+theorem error_no_effect (S : Store) (cfg : Cfg) (sched : List Act) (s : St S) (h : reach S cfg sched = some s)
+    (i : Nat) (hr : Ev.ret i COut.err ∈ hist s) :
+    (∃ op, (i, op, COut.err) ∈ linlog s.tr) ∧ i ∉ allRecs s :=
+  error_no_effect_partial S cfg sched s h (no_late S cfg sched s h) i hr
+
+/-- a write that returned `ok` has exactly one record -/
+theorem log_once (S : Store) (cfg : Cfg) (sched : List Act) (s : St S) (h : reach S cfg sched = some s)
+    (i : Nat) (hr : Ev.ret i COut.ok ∈ hist s) : (allRecs s).count i = 1 :=
+  log_once_partial S cfg sched s h (no_late S cfg sched s h) i hr
+
+/-! ### non-vacuity -/
+
+def cfgImm : Cfg := { syncImmediate := true }
+def wput : COp := .put [1] [7]
+
+/-- the flush goroutine marks the WAL Rotating between buffering and sync: the sync still succeeds -/
+def schedRotInside : List Act :=
+  [.start 0 wput, .step 0, .step 0, .step 0, .step 0,   -- lock, getWAL, status check (Active), buffer the record
+   .rot,                                                 -- SetRotating
+   .step 0,                                              -- syncLocked on a Rotating log: succeeds
+   .step 0, .step 0, .step 0]                            -- memtable insert, unlock, return
+
+/-- the WAL is Rotating before the put starts and stays so: three attempts, then an error; nothing was logged -/
+def schedFail : List Act :=
+  [.rot, .start 0 wput, .step 0,                         -- SetRotating; call; lock
+   .step 0, .step 0, .step 0,                            -- attempt 0: getWAL, Rotating, retry
+   .step 0, .step 0, .step 0,                            -- attempt 1
+   .step 0, .step 0, .step 0,                            -- attempt 2: getWAL, Rotating, give up
+   .step 0, .step 0]                                     -- unlock, return
+
+theorem rotation_inside_append_ok : ∃ sched s, reach mapStore { syncImmediate := true } sched = some s ∧
+    Ev.ret 0 COut.ok ∈ hist s ∧ (allRecs s).count 0 = 1 ∧ s.late = 0 := by
+  have hs : (reach mapStore cfgImm schedRotInside).isSome = true := rfl
+  refine ⟨schedRotInside, (reach mapStore cfgImm schedRotInside).get hs, (Option.some_get hs).symm, ?_, rfl, rfl⟩
+  have hh : hist ((reach mapStore cfgImm schedRotInside).get hs) = [.call 0 wput, .ret 0 .ok] := rfl
+  rw [hh]; exact List.mem_cons_of_mem _ List.mem_cons_self
+
+theorem error_reachable_witness : ∃ sched s, reach mapStore { syncImmediate := true } sched = some s ∧
+    Ev.ret 0 COut.err ∈ hist s ∧ allRecs s = [] := by
+  have hs : (reach mapStore cfgImm schedFail).isSome = true := rfl
+  refine ⟨schedFail, (reach mapStore cfgImm schedFail).get hs, (Option.some_get hs).symm, ?_, rfl⟩
+  have hh : hist ((reach mapStore cfgImm schedFail).get hs) = [.call 0 wput, .ret 0 .err] := rfl
+  rw [hh]; exact List.mem_cons_of_mem _ List.mem_cons_self
 
 end Kevo.ConcStorage
